@@ -21,6 +21,7 @@ def model_check(chk):
             ("N3R0B0", dict(base, Retries=0, BatchSize=0), True),
             ("N3R2B3", dict(base, Retries=2, BatchSize=3, MinTasks=1), True),
             ("N3nobackup", dict(base, UseBackups=False), True),
+            ("N3R1B1M1", dict(base, BatchSize=1, MinTasks=1), True),
             ("N4R1B2M1", dict(base, N=4, MinTasks=1), False)]
     if chk.tier == "thorough":
         jobs.append(("N4R2B2", dict(base, N=4, Retries=2), True))
@@ -49,7 +50,7 @@ def gen_scripts(rng, count):
         n = rng.choice([3, 4, 6, 10, 11, 12, 13, 16, 24])
         retries = rng.choice([0, 1, 2, 2])
         ub = rng.random() < 0.75
-        bs = rng.choice([None, None, 2, 3, 5, 10, n, n + 3])
+        bs = rng.choice([None, None, 1, 1, 2, 3, 5, 10, n, n + 3])    # 1: the pending set is a single original (+ its backup)
         dur, fails, bdur, bfails = {}, {}, {}, {}
         pdoom = rng.choice([0.0, 0.0, 0.03, 0.15])
         for i in range(1, n + 1):
